@@ -164,7 +164,7 @@ def run(cx):
             opcodes_seen.add(s[2])
         nsteps += len(res["steps"] or [])
         srows.append({"id": r["id"], "k": res["k"], "steps": res["steps"] or [], "final_sp": res["final_sp"],
-                      "truncated": res["truncated"]})
+                      "again_sp": res.get("again_sp", -9), "truncated": res["truncated"]})
     spaths = langlib.shard_cases(cx, srows, nsh, "steps")
     sresults = parallel_tlc(cx, "BytecodeTrace", "VERIF_STEPS", spaths, "trace")
     badsteps = {}
